@@ -35,6 +35,13 @@ def dUndeclared1 (R : List Route) (m : Bytes) (p : RPath) : Bool :=
   R.any fun r => r.method = m && compiledDyn r && (matchPat p.trail r.pat p.segs).isSome &&
     r.cons.any fun (n, _) => !(declNames r.pat).contains n
 
+def isWhite (c : Char) : Bool := c = ' ' || c = '\t' || c = '\n' || c = '\r' || c.toNat = 11 || c.toNat = 12
+
+/-- K11f: a pattern text of the request method ends in white space (`CompileRoute` trims it, the tree
+registers it as written: pattern text, last parameter name or last literal differ) -/
+def dSpace1 (R : List Route) (m : Bytes) : Bool :=
+  R.any fun r => r.method = m && (match r.text.getLast? with | some c => isWhite c | none => false)
+
 /-- every pattern is in the vocabulary (constraints unrestricted) -/
 def patternsOK (R : List Route) : Bool := R.all fun r => parsePattern r.text = some r.pat
 
@@ -42,7 +49,8 @@ def patternsOK (R : List Route) : Bool := R.all fun r => parsePattern r.text = s
 request's own method; the 404/405 tail is shared code. -/
 def classify11 (sat : Nat → Bytes → Bool) (R : List Route) (req : Req) (p : RPath) : String :=
   let m := req.method
-  if dUndeclared1 R m p then "undeclared"
+  if dSpace1 R m then "space"
+  else if dUndeclared1 R m p then "undeclared"
   else if dMulti1 R m p then "multicons"
   else if dOverwrite1 R m p then "overwrite"
   else if dNames1 R m p then "names"
